@@ -139,15 +139,41 @@ void run_router(const Case &c, int reps) {
     if (max_inside.load() >= 2) nontrivial();
 }
 
+// ---------------------------------------------------------------- family 3: tulz::Thread completion flag
+// The owner polls isFinished() and, once it is true, reads what the callable wrote WITHOUT joining first: "isFinished()
+// becomes true only after the callable has returned" must be a happens-before edge, not just a temporal one.
+struct Box { int plain = 0; char pad[64]; long big[8] = {}; };
+void thread_fn(Box &b, int &v) { spin(20); b.plain = 7; v = 9; for (long &x : b.big) x = 3; }
+struct LogRun : Runnable { Box *b; explicit LogRun(Box *x) : b(x) {} void run() override { In in; spin(20); b->plain = 7; for (long &x : b->big) x = 3; } };
+void run_thread(const Case &c, int reps) {
+    int kind = (unsigned)hget(c, 2, 0) % 3;
+    long sum = 0;
+    for (int r = 0; r < reps * 3; ++r) {
+        Box box; int v = 0;
+        Thread t;
+        if (kind == 0) t.start(&thread_fn, box, v);
+        else if (kind == 1) t.start([&box, &v](int &extra) { In in; spin(10); box.plain = 7; v = 9; extra = 1; for (long &x : box.big) x = 3; }, v);
+        else t.start(new LogRun(&box));
+        In in;
+        while (!t.isFinished()) { if ((r & 3) == 0) std::this_thread::yield(); }
+        sum += box.plain + box.big[7] + (kind == 2 ? 0 : v);      // plain reads, ordered only by the completion flag
+        if (t.isRunning()) sum += 1000;
+        t.join();
+    }
+    if (sum < 0) label("never");
+    count_ops(reps * 3);
+    nontrivial();
+}
+
 } // namespace
 
 void exec_case(const Case &c) {
-    int family = (unsigned)hget(c, 0, 0) % 3;
+    int family = (unsigned)hget(c, 0, 0) % 4;
     int reps = 3 + (unsigned)hget(c, 1, 0) % 10;
-    static const char *fn[] = {"family_resource", "family_threadpool", "family_router"};
+    static const char *fn[] = {"family_resource", "family_threadpool", "family_router", "family_thread_completion_flag"};
     label(fn[family]);
-    if (family == 0) run_resource(c, reps); else if (family == 1) run_pool(c, reps); else run_router(c, reps);
-    if (family != 1) count_ops((long)c.ops.size() * reps);   // (harness counters are touched by the main thread only)
+    if (family == 0) run_resource(c, reps); else if (family == 1) run_pool(c, reps); else if (family == 2) run_router(c, reps); else run_thread(c, reps);
+    if (family == 0 || family == 2) count_ops((long)c.ops.size() * reps);   // (harness counters are touched by the main thread only)
     label_n("max_threads_inside_tulz", max_inside.load());
 }
 
